@@ -141,6 +141,24 @@ def explore(ctx):
         ctx.evaluations += 2
         ctx.count('sequential-pairs')
         oracle(ctx, on, off, o1, o2, mode='each')
+    # contents that a checksum cannot tell apart: equal length, equal CRC-32, equal sum of bytes (Adler-32 differs)
+    # - the key must identify the CONTENTS.  P = delete the first 'p'; then the file is replaced; then P again.
+    for a, b in (('plumless', 'buckeroo'), ('xplumless;', 'xbuckeroo;')):
+        sc = {'files': [('f0.c', a)], 'rules': [([], 0)],
+              'passes': [{'key': 1, 'ops': [('delch', 'p')], 'aos': 1, 'maxt': None, 'newfix': None},
+                         {'key': 2, 'ops': [('set', b)], 'aos': 1, 'maxt': None, 'newfix': None},
+                         {'key': 1, 'ops': [('delch', 'p')], 'aos': 1, 'maxt': None, 'newfix': None},
+                         {'key': 2, 'ops': [('set', a)], 'aos': 1, 'maxt': None, 'newfix': None},
+                         {'key': 1, 'ops': [('delch', 'p')], 'aos': 1, 'maxt': None, 'newfix': None}],
+              'cfg': {'N': 1, 'no_cache': False}, 'sched': []}
+        # the first P must see `a` again later: undo its deletion by the set pass, as above
+        on = dict(sc, cfg=dict(sc['cfg'], no_cache=False))
+        off = dict(sc, cfg=dict(sc['cfg'], no_cache=True))
+        o1 = driver.run_scenario(on, ctx.tmp)
+        o2 = driver.run_scenario(off, ctx.tmp)
+        ctx.evaluations += 2
+        ctx.count('checksum-colliding-contents')
+        oracle(ctx, on, off, o1, o2, mode='each')
     ctx.sample({'scenario': {k: red[0][2][k] for k in ('files', 'group', 'rules', 'cfg')}, 'impl_output': red[0][1][:40]})
     correspond(ctx, 'c10', each, red)
 
